@@ -1,13 +1,18 @@
 #!/venv/bin/python
-"""Record, per function of /repo's current tree, the shapes of its binding statements and the local names they bind.
-The loader uses this only to alpha-rename locals back to these names when a function's binding statements line up
-(a semantics-preserving normalisation that makes the rules insensitive to renamed locals)."""
+"""Record the reference inventory of /repo's current tree for the loader's canonical form:
+  sa/localnames.json  per function: shapes of its binding statements and the local names they bind (alpha-renaming aid)
+  sa/reference.json   per module: module-level constant names, class-level constant names, all function qualnames with
+                      their parameter names and the order-insensitive keys of their if/while tests
+The loader uses both only to undo behaviour-preserving refactorings (renamed locals, extracted helpers/constants/locals,
+reshaped conditionals) -- constructs that are *absent* from this inventory are rewritten back, the pinned tree itself is a
+fix point.  Re-run after every commit to /repo."""
 import ast, json, os, sys
 V = os.path.dirname(os.path.dirname(os.path.abspath(__file__)))
 sys.path.insert(0, V); sys.dont_write_bytecode = True
 os.environ["VERIF_NO_RENAME"] = "1"
 from sa.loader import _Canonical, _binding_shapes  # noqa
-out = {}
+from sa import canon  # noqa
+out, ref = {}, {}
 root = sys.argv[1] if len(sys.argv) > 1 else "/repo"
 for dp, dn, fns in os.walk(os.path.join(root, "canopen")):
     for fn in sorted(fns):
@@ -17,7 +22,8 @@ for dp, dn, fns in os.walk(os.path.join(root, "canopen")):
         rel = os.path.relpath(path, root)
         tree = _Canonical().visit(ast.parse(open(path).read()))
         ast.fix_missing_locations(tree)
-        d = {}
+        d, funcs = {}, {}
+
         def walk(node, prefix):
             for n in getattr(node, "body", []):
                 if isinstance(n, ast.ClassDef):
@@ -29,9 +35,20 @@ for dp, dn, fns in os.walk(os.path.join(root, "canopen")):
                     sh = _binding_shapes(n)
                     if sh:
                         d[q] = sh
+                    a = n.args
+                    funcs[q] = {"params": [x.arg for x in a.posonlyargs + a.args + a.kwonlyargs] + ([a.vararg.arg] if a.vararg else []) + ([a.kwarg.arg] if a.kwarg else []),
+                                "tests": canon.test_keys_of(n), "forms": canon.test_forms_of(n)}
                     walk(n, q + ".")
         walk(tree, "")
         if d:
             out[rel] = d
+        consts = sorted({t.id for st in tree.body if isinstance(st, (ast.Assign, ast.AnnAssign)) for t in (st.targets if isinstance(st, ast.Assign) else [st.target])
+                         for t in ([t] if isinstance(t, ast.Name) else [x for x in ast.walk(t) if isinstance(x, ast.Name)])})
+        ccs = {}
+        for c in [n for n in ast.walk(tree) if isinstance(n, ast.ClassDef)]:
+            ccs[c.name] = sorted({t.id for st in c.body if isinstance(st, (ast.Assign, ast.AnnAssign)) for t in (st.targets if isinstance(st, ast.Assign) else [st.target])
+                                  if isinstance(t, ast.Name)})
+        ref[rel] = {"consts": consts, "class_consts": ccs, "funcs": funcs}
 json.dump(out, open(os.path.join(V, "sa", "localnames.json"), "w"), indent=0)
-print(sum(len(v) for v in out.values()), "functions recorded")
+json.dump(ref, open(os.path.join(V, "sa", "reference.json"), "w"), indent=0, sort_keys=True)
+print(sum(len(v) for v in out.values()), "functions with locals;", sum(len(v["funcs"]) for v in ref.values()), "functions in the reference inventory")
